@@ -61,7 +61,7 @@ KNOWN = {
 
 
 class NotRecognised(Exception):
-    pass
+    info = None   # file / sha256 of the source that was looked at, when there was one
 
 
 def strip_comments(src):
@@ -197,6 +197,14 @@ def generate(env=None, root=None):
     path = locate(root)
     raw = open(path, "rb").read()
     info = dict(file=path, sha256=hashlib.sha256(raw).hexdigest(), goversion=version)
+    try:
+        return _generate(raw, path, version, info)
+    except NotRecognised as e:
+        e.info = info
+        raise
+
+
+def _generate(raw, path, version, info):
     src = strip_comments(raw.decode("utf-8"))
     parts = extract(src)
     consts = parts["const"]
